@@ -28,9 +28,9 @@ def parseOp (prim : String) (s : String) : Option SOp :=
     | "reset", none => some .reset
     | "destroy", none => some .destroy
     | "start", some a => a.toNat?.bind fun j => if j > 0 ∧ j < 8 then some (.start j) else none
-    -- the member-function overload of Thread::start (Thread.hpp) forwards to start(proc, param): same model step
-    | "mstart", some a => a.toNat?.bind fun j => if j > 0 ∧ j < 8 then some (.start j) else none
-    -- member-function overload on Thread object j = n / 8 with the body object of program k = n % 8: for the model a start on object j
+    -- the member-function overload of Thread::start (Thread.hpp): stores the functor in the object, then start(proc, param)
+    | "mstart", some a => a.toNat?.bind fun j => if j > 0 ∧ j < 8 then some (.mstart j) else none
+    -- member-function overload on Thread object j = n / 8 with the body object of program k = n % 8
     | "xstart", some a => a.toNat?.bind fun n => if n / 8 > 0 ∧ n / 8 < 8 then some (.xstart (n / 8) (n % 8)) else none
     | "dtor", some a => a.toNat?.bind fun j => if j > 0 ∧ j < 8 then some (.dtor j) else none
     | "join", some a => a.toNat?.bind fun j => if j > 0 ∧ j < 8 then some (.join j) else none
@@ -73,7 +73,7 @@ def parseScen (ws : List String) : Option World :=
     if nsec ≥ 1000000000 ∨ q = 0 ∨ progs.isEmpty ∨ progs.length > 8 then none
     let ps ← progs.mapM (parseProg prim)
     let ok := ps.all fun (_, ops) => ops.all fun o =>
-      match o with | .start j | .join j | .dtor j => j < ps.length | .xstart j k => j < ps.length ∧ k < ps.length | _ => true
+      match o with | .start j | .mstart j | .join j | .dtor j => j < ps.length | .xstart j k => j < ps.length ∧ k < ps.length | _ => true
     if !ok then none
     mkWorld prim init sec nsec q spur eintr cfail ps.toArray
   | _ => none
